@@ -275,7 +275,7 @@ def main(ctx):
     for path, rec in common.load_replays(PID):
         col.record(rec["case"], run_case(rec["case"]), nontrivial=True, classes=["replay"])
     ctx.required_classes = ["shared-command-code", "request-on-shared-code", "unregistered", "outcome=none", "outcome=raise", "outcome=str",
-                            "outcome=request", "outcome=generic", "outcome=raise-noargs", "form=decoded", "apps=3", "requests=4", "concurrent-dispatch",
+                            "outcome=request", "outcome=generic", "outcome=raise-noargs", "form=decoded", "apps=3", "requests=4", "concurrent-dispatch", "long-life-of-one-application-object",
                             "same-code-on-two-applications-in-one-history", "requests-waiting-on-two-connections-at-one-poll"]
     ctx.assumptions = ["in-process Worker objects with a fake multiprocessing manager; the hand-over is observed at the worker's send queue",
                        "handlers raise only standard Exception subclasses; requests carry Session-Id, Origin-Host and Origin-Realm",
@@ -290,6 +290,12 @@ def main(ctx):
 @st.composite
 def concurrent_cases(draw):
     from .. import conc
+    if draw(st.integers(0, 7)) == 0:
+        # a long life of one application object: dozens of requests one after the other, most of them failing in their handler
+        n = draw(st.sampled_from([45, 64, 90, 130]))
+        outcomes = [draw(st.sampled_from(["none", "raise", "raise", "none", "answer"])) for _ in range(n)]
+        return {"kind": "concurrent", "long": True, "n": n, "gates": [0] * n, "outcomes": outcomes, "sched": [], "send_delay": 0.0,
+                "hbh": [0x1000 + i for i in range(n)]}
     n = draw(st.sampled_from([2, 2, 3]))
     gates = [draw(st.sampled_from([0, 0, n, n - 1])) for _ in range(n)]
     if all(g == 0 for g in gates):
@@ -310,7 +316,7 @@ def run_concurrent(case):
     from bromelia.exceptions import BromeliaException
     C = refdict.cls_obj
     n = case["n"]
-    sched = Scheduler(choices=None, line_preempt=False, trace_prefix=common.REPO.rstrip("/") + "/bromelia/", max_steps=200000)
+    sched = Scheduler(choices=None, line_preempt=False, trace_prefix=common.REPO.rstrip("/") + "/bromelia/", max_steps=200000 if not case.get("long") else 6000000)
     net = Net(sched)
     vs = []
     with Patch(sched, net):
@@ -355,8 +361,12 @@ def run_concurrent(case):
             def dispatcher():
                 for r in reqs:
                     threads.append(app.create_message_thread(r))
+                    if case.get("long"):
+                        # one after the other; a request that is never served (2 virtual seconds) does not hold up the next one
+                        threads[-1].join(2.0)
             sched.spawn(dispatcher, "dispatcher")
-            r_ = sched.run_until(lambda: len(threads) == n and all(not t.is_alive() for t in threads) and len(rec.sent) >= n or sched.overrun, 15.0)
+            r_ = sched.run_until(lambda: len(threads) == n and all(not t.is_alive() for t in threads) and len(rec.sent) >= n or sched.overrun,
+                                 15.0 if not case.get("long") else 15.0 + 3.0 * n)
             sched.run_until(lambda: False, 0.3)
             try:
                 sent = [rc.dec_stream(m.dump())[0] for m in rec.sent]
@@ -397,7 +407,8 @@ def _collect_conc(shard, seed, n):
 
     def body(case):
         col.record(case, run_concurrent(case), nontrivial=True,
-                   classes=["concurrent-dispatch", f"concurrent-n={case['n']}"] + (["slow-connection"] if case.get("send_delay") else []))
+                   classes=["concurrent-dispatch", f"concurrent-n={case['n']}" if not case.get("long") else "long-life-of-one-application-object"]
+                   + (["slow-connection"] if case.get("send_delay") else []))
 
     common.hyp_collect(concurrent_cases(), body, n, seed)
     return col
